@@ -323,8 +323,20 @@ def model(A, fn, frame, b, t, st, name):
             return ret(res)
         A.require(st, fn, b, "index", "index within bounds", [None])
         return ret(None)
+    if matches(n, "slice::split_first", "slice::split_last") or n in ("core::slice::split_first", "core::slice::split_last"):
+        s = seq_of(A, st, A.arg(st, frame, t, 0))
+        if s is not None:
+            ety = "u8" if "u8" in dest_ty else None
+            el = A.fresh_int(st, ety, "elem") if ety else TOP
+            rest = ("seq", s[1].addc(-1), s[2], fresh_ident(A))
+            pay = ("tuple", ((el, rest) if n.endswith("split_first") else (el, rest)))
+            # Some(..) exactly when the slice is not empty
+            if st.store.entails(Lin.const(1).sub(s[1])):
+                return ret(("opt", "Some", pay, "Option"))
+            return ret(("opt", None, pay, "Option", (Lin.const(1).sub(s[1]),)))
+        return ret(("opt", None, None, "Option"))
     if matches(n, "slice::get", "slice::get_mut", "slice::first_mut", "slice::last_mut", "Vec::get", "Vec::get_mut", "Vec::pop",
-               "str::get", "slice::split_first", "slice::split_last", "str::strip_suffix", "str::strip_prefix", "str::rsplit_once", "str::split_once"):
+               "str::get", "str::strip_suffix", "str::strip_prefix", "str::rsplit_once", "str::split_once"):
         if matches(n, "slice::get", "slice::get_mut", "Vec::get", "Vec::get_mut") or n in ("core::slice::get", "core::slice::get_mut"):
             s = seq_of(A, st, A.arg(st, frame, t, 0))
             i = A.deref(st, A.arg(st, frame, t, 1))
@@ -591,6 +603,9 @@ def model(A, fn, frame, b, t, st, name):
                     if sx.ok:
                         sx.fail_detail = "cannot show that %s is a char boundary" % (k,)
                     sx.ok = False
+        if not matches(n, "Vec::split_off", "String::split_off") and s is not None and k is not None:
+            st.store.add(k.sub(s[1]))       # (continuing past the check)
+            return ret(("tuple", (("seq", k, s[2], sub_ident(s, Lin.const(0))), ("seq", s[1].sub(k), s[2], sub_ident(s, k)))))
         if matches(n, "Vec::split_off", "String::split_off"):
             kk = A.recv_key(st, frame, t, 0)
             if kk is not None and k is not None and s is not None:
